@@ -1,6 +1,7 @@
 """C19 - results are independent of call history, hash seed and tensor-name
 configuration."""
 import json
+import re
 import os
 import shutil
 import subprocess
@@ -16,8 +17,10 @@ from .. import common
 
 ID = "C19"
 RULE = ("Fixed: every pool request once with a non-zero PYTHONHASHSEED, 16 "
-        "requests under two name configurations; Hypothesis draws (request "
-        "from a pool of 26 derivation / "
+        "requests under two name configurations, 16 requests after the same "
+        "kind of request on another object configuration (ground states with / "
+        "without first-order singles, other variants); Hypothesis draws (request "
+        "from a pool of 30 derivation / "
         "transformation requests, history of 0-6 other requests and explicit "
         "/ generic / spin index requests, PYTHONHASHSEED, optional "
         "tensor-name configuration). Every tuple runs in a FRESH interpreter "
@@ -29,7 +32,9 @@ RULE = ("Fixed: every pool request once with a non-zero PYTHONHASHSEED, 16 "
         "contracted index; with a generated tensor_names.json (scratch copy "
         "of the package under $TMPDIR, removed afterwards) the result, with "
         "tensors renamed back by reconstruction, has the same text and "
-        "fingerprints. Non-trivial: non-empty history containing a request "
+        "fingerprints, and the default-name baseline text imported with "
+        "convert_default_names=True has that value and those tensor kinds too. "
+        "Non-trivial: non-empty history containing a request "
         "that advances the generic counters or fills a cache the request "
         "reads, or a non-zero hash seed, or a name configuration.")
 BUDGET = {"quick": 150, "thorough": 2400}
@@ -42,8 +47,10 @@ REQUESTS = ["energy2", "re_energy2", "mp_amp_2_ph", "mp_amp_1_pphh",
             "precursor_1", "overlap_pre_2",
             "m_ph_ph_1", "m_ph_ph_2", "m_ip_2", "mvp_1", "tm_1", "tm_2",
             "expec_block_1", "t2_2", "t1_2_once", "p0_2_oo", "reduce_t1_2",
-            "p0_3_oo", "p0_3_vv", "t1_3", "t2eri_A"]
-CHEAP_HISTORY = ["energy2", "mp_amp_2_ph", "psi_2", "norm_2", "precursor_1",
+            "p0_3_oo", "p0_3_vv", "t1_3", "t2eri_A", "re_energy2_s",
+            "energy2_s", "re_resid_1_s", "psi_1_s"]
+CHEAP_HISTORY = ["energy2", "re_energy2", "re_energy2_s", "energy2_s",
+                 "mp_amp_2_ph", "psi_2", "norm_2", "precursor_1",
                  "m_ph_ph_1", "tm_1", "t2_2", "p0_2_oo", "expec_2",
                  "overlap_pre_2", "mvp_1"]
 NAME_POOL = ["W", "u", "h", "g", "T", "r", "L", "R", "eps", "Delta", "G", "H",
@@ -162,6 +169,10 @@ def run_case(case):
         pp = package_copy(case["names"])
         job["names_back"] = names_back_map(case["names"])
         job["adcgen_root"] = pp
+        if base.get("text") and not re.search(r"\d\.\d", base["text"]):
+            # (t2eri_A is defined with a float prefactor 0.5; importing
+            #  floats is not part of this property)
+            job["default_text"] = base["text"]
     got, err = run_worker(job, case["hashseed"], pp)
     r.sample = (f"{req} after history {case['history']} with PYTHONHASHSEED="
                 f"{case['hashseed']} names={case['names']}")
@@ -184,6 +195,16 @@ def run_case(case):
                    f"{r.sample}:\n  baseline {str(base.get(key))[:400]}\n  "
                    f"got      {str(got.get(key))[:400]}")
             break
+    if got.get("convert_error"):
+        r.fail("names/convert_default_names/exception",
+               f"{r.sample}: {got['convert_error']}")
+    elif "convert_fp" in got and (got["convert_fp"] != got.get("fp") or
+                                  got.get("convert_kinds")):
+        r.fail("names/convert_default_names",
+               f"{r.sample}: the default-name result imported with "
+               f"convert_default_names=True differs from the configured-name "
+               f"result (fingerprints {got['convert_fp']} vs {got.get('fp')}"
+               f", tensor kinds {got.get('convert_kinds')})")
     if got.get("malformed_terms"):
         r.fail("norm_factor_index_reuse", f"{req}: terms in which a summed "
                f"index does not occur exactly twice: {got['malformed_terms']}")
@@ -220,7 +241,23 @@ FIXED_REQ = ["expand_density", "p0_2_oo", "t2_2", "reduce_t1_2", "m_ph_ph_2",
 HASHSEEDS = [1, 2, 12345, 987654321]
 
 
+# fixed history cases: the same kind of request on another object
+# configuration first (instances must not share caches)
+FIXED_HIST = [(["re_energy2"], "re_energy2_s"), (["re_energy2_s"], "re_energy2"),
+              (["energy2"], "energy2_s"), (["energy2_s"], "energy2"),
+              (["energy2"], "re_energy2"), (["re_energy2"], "energy2"),
+              (["psi_2"], "psi_1_s"), (["psi_1_s"], "psi_2"),
+              (["re_energy2"], "re_resid_1_s"), (["m_ph_ph_1"], "m_ip_2"),
+              (["m_ip_2"], "m_ph_ph_1"), (["tm_1"], "expec_block_1"),
+              (["mp_amp_2_ph"], "t1_2_once"), (["p0_2_oo"], "expand_density"),
+              (["norm_2"], "norm_4"), (["precursor_1"], "overlap_pre_2")]
+
+
 def run_shard(col, shard, nshards, seed, tier):
+    for k in range(shard, len(FIXED_HIST), nshards):
+        hist, req = FIXED_HIST[k]
+        col.run({"request": req, "history": [[h, 0] for h in hist],
+                 "hashseed": 0, "names": None}, run_case)
     for k in range(shard, len(REQUESTS), nshards):
         col.run({"request": REQUESTS[k], "history": [],
                  "hashseed": HASHSEEDS[(k + seed) % len(HASHSEEDS)],
